@@ -2,8 +2,8 @@ SPECIFICATION Spec
 CONSTANTS
   MaxOps = 4
   MoreOnLast = FALSE
-  EofForZeroCols = TRUE
+  EofForZeroCols = FALSE
   Recover = TRUE
-  LeakHeader = FALSE
+  LeakHeader = TRUE
 INVARIANTS P_C03 P_Shape
 CHECK_DEADLOCK FALSE
